@@ -62,6 +62,20 @@ type node struct {
 	writes []settle.Write                  // every write that reached the store, over all incarnations
 }
 
+// quiet: the service publishes totals from goroutines it spawns and forgets (they read the totals without the
+// peer lock).  The driver lets them finish before the next call; the wait is bounded and changes no observation.
+func (n *node) quiet(header, cheque int) {
+	n.sub.Await("header", header, 50*time.Millisecond)
+	// the cheque publication takes the peer lock: it cannot finish while a payment is parked inside it
+	n.sub.Await("trafficCheque", cheque, 3*time.Millisecond)
+}
+
+// spawned: publication counts before a call; the returned func waits for h more header and c more cheque publications.
+func (n *node) spawned() func(h, c int) {
+	h0, c0 := n.sub.Count("header"), n.sub.Count("trafficCheque")
+	return func(h, c int) { n.quiet(h0+h, c0+c) }
+}
+
 func newNode(par map[string]interface{}) (*node, error) {
 	logger := settle.Logger()
 	if shared == nil {
@@ -231,7 +245,9 @@ func runHist(sc kit.Scenario, out *kit.Out) error {
 		case "credit":
 			x := kit.Int(op, "x")
 			ev["x"] = x
+			after := n.spawned()
 			ev["err"] = errs(n.svc.PutRetrieveTraffic(settle.Overlay(p), big.NewInt(int64(x))))
+			after(1, 1)
 		case "pay":
 			ok := kit.Bool(op, "ok")
 			ev["ok"] = ok
@@ -240,7 +256,11 @@ func runHist(sc kit.Scenario, out *kit.Out) error {
 				return berr
 			}
 			ev["before"] = before
+			after := n.spawned()
 			e, panicked, msg := n.pay(p, ok)
+			if e == nil && len(n.emit.Peek()) > 0 {
+				after(0, 1)
+			}
 			ev["err"], ev["panicked"] = errs(e), panicked
 			if panicked {
 				ev["err"] = "panic: " + msg
@@ -380,6 +400,8 @@ func runSched(sc kit.Scenario, out *kit.Out) error {
 			k, x := kit.Str(op, "k"), kit.Int(op, "x")
 			ev["k"], ev["x"] = k, x
 			svc := n.svc
+			after := n.spawned()
+			defer after(1, 1)
 			n.ctl.Start(t, func() interface{} {
 				if k == "served" {
 					return svc.PutTransferTraffic(settle.Overlay(p), big.NewInt(int64(x)))
@@ -413,8 +435,12 @@ func runSched(sc kit.Scenario, out *kit.Out) error {
 			if !ok {
 				rerr = settle.ErrEmit
 			}
+			after := n.spawned()
 			n.ctl.Release(t, nil, rerr)
 			statusFields(ev, n.ctl.Wait(t))
+			if name == "emit" && ok {
+				after(0, 1)
+			}
 			n.takeEmitted()
 		}
 		out.Emit(ev)
@@ -504,10 +530,16 @@ func runSched(sc kit.Scenario, out *kit.Out) error {
 		case "credit":
 			x := kit.Int(op, "x")
 			ev["x"] = x
+			after := n.spawned()
 			ev["err"] = errs(n.svc.PutRetrieveTraffic(settle.Overlay(p), big.NewInt(int64(x))))
+			after(1, 1)
 			out.Emit(ev)
 		case "pay":
+			after := n.spawned()
 			e, panicked, msg := n.pay(p, true)
+			if e == nil && len(n.emit.Peek()) > 0 {
+				after(0, 1)
+			}
 			ev["err"] = errs(e)
 			if panicked {
 				ev["err"] = "panic: " + msg
